@@ -94,6 +94,8 @@ class Model:
         if e in ("@drop", "@rst", "BOOM"):
             self._end(i)
             return []
+        if e in ("PASV", "LIST"):
+            return None          # replies of these are C05's business; here only the accounting matters
         raise ValueError(e)
 
     def idle(self):
@@ -105,7 +107,7 @@ class Model:
 def build(hist, n, limit, chooser=None, explore_from=None):
     """replay a history on a fresh server; returns (rig, model, problems, last replies)"""
     rig = Rig(chooser=chooser, n_sessions=n, users=users_factory, tree={}, advance=0,
-              server_kwargs={"maximum_connections": limit, "idle_timeout": IDLE})
+              server_kwargs={"maximum_connections": limit, "idle_timeout": IDLE, "wait_future_timeout": 1})
 
     async def boom(connection, rest):
         raise RuntimeError("injected handler error")
@@ -123,6 +125,9 @@ def build(hist, n, limit, chooser=None, explore_from=None):
                 rig.world.settle(IDLE + 1)
                 model.idle()
                 rig.collect()
+            elif e == "@wait425":
+                rig.world.settle(1.5)           # past wait_future_timeout, short of the idle timeout
+                rig.collect()
             continue
         nosettle = e.endswith("!")
         exp = model.step(i, e.rstrip("!"))
@@ -135,7 +140,7 @@ def build(hist, n, limit, chooser=None, explore_from=None):
         got = [c for _, rr in s.transcript[-1:] for c, _ in rr] if (r or s.transcript) else []
         got = [c for c, _ in (r or [])]
         if not any(ev.endswith("!") for _, ev in hist[:k + 1]):
-            if got != exp:
+            if exp is not None and got != exp:
                 problems.append({"kind": "admission-differs-from-model", "step": [i, e], "got": got, "expected": exp,
                                  "history": hist[:k + 1]})
         problems += counters_vs_model(rig, model, hist[:k + 1])
@@ -163,9 +168,11 @@ def counters_vs_model(rig, model, hist):
 def digest(rig):
     srv = rig.server
     try:
+        workers = tuple(sorted((c.future.passive_server.done(), len([w for w in c.extra_workers if not w.done()]))
+                               for c in srv.connections.values()))
         return (srv.available_connections.value,
                 tuple(sorted((u.login or "", ac.value) for u, ac in srv.user_manager.available_connections.items())),
-                len(srv.connections))
+                len(srv.connections), workers)
     except AttributeError:
         return ()
 
@@ -215,7 +222,8 @@ def final_probe(rig, model, hist):
     return problems
 
 
-ALPHABET = ["@connect", "USER alice", "USER bob", "USER nobody", "PASS pw", "PASS bad", "QUIT", "@drop", "@rst", "BOOM"]
+ALPHABET = ["@connect", "USER alice", "USER bob", "USER nobody", "PASS pw", "PASS bad", "QUIT", "@drop", "@rst", "BOOM",
+            "PASV", "LIST"]      # LIST without a data connection: a worker waits, then 425 - the session may end meanwhile
 
 
 def expand(item):
@@ -248,6 +256,8 @@ def expand(item):
             enabled = [(i, e) for i in range(n) for e in ALPHABET if model.enabled(i, e)]
             if any(st[0] == "open" for st in model.sess):
                 enabled.append((-1, "@idle"))
+                if any(e == "LIST" for _, e in hist) and (not hist or hist[-1] != (-1, "@wait425")):
+                    enabled.append((-1, "@wait425"))
             return part, key, enabled
         finally:
             rig.close()
